@@ -20,13 +20,18 @@ Inductive yval :=
 | YT (rows : list row)
 | YM (heads : list (list row)).
 
-(* module / autograd state observed by the forward call *)
-Record mstate := MS { training : bool; grad : bool }.
-Definition set_eval (s : mstate) : mstate := MS false (grad s).        (* model.eval()        *)
+(* module / autograd state observed by the forward call.  `training` is a PER-MODULE flag in
+   torch: [training] lists the flag of every module of model.modules() (the root first, then
+   its sub-modules); Module.eval() is what sets all of them, the root's flag alone says nothing
+   about the children.                                                                      *)
+Record mstate := MS { training : list bool; grad : bool }.
+Definition all_eval (fl : list bool) : list bool := map (fun _ => false) fl.
+Definition set_eval (s : mstate) : mstate := MS (all_eval (training s)) (grad s).  (* model.eval() *)
 Definition enter_no_grad (s : mstate) : mstate := MS (training s) false. (* with torch.no_grad() *)
 
-(* one recorded forward call: the flags it ran under and the rows of X and of every arg it got *)
-Record callrec := CR { cr_training : bool; cr_grad : bool; cr_X : list row; cr_args : list arg }.
+(* one recorded forward call: the training flag of every (sub-)module and the grad mode it ran
+   under, and the rows of X and of every arg it got *)
+Record callrec := CR { cr_training : list bool; cr_grad : bool; cr_X : list row; cr_args : list arg }.
 
 (* l[start:start+b] for 0 <= start, 1 <= b *)
 Definition window {T} (start b : nat) (l : list T) : list T := firstn b (skipn start l).
@@ -64,7 +69,7 @@ Definition cat_outputs (ys : list yval) : res yval :=
 
 Section Predict.
   (* the user's forward on one batch, under the given (training, grad-enabled) flags *)
-  Variable g : bool -> bool -> list row -> list arg -> yval.
+  Variable g : list bool -> bool -> list row -> list arg -> yval.
 
   (* the loop body for every start of range(0, n, b): X[start:end] and a[start:end] for every
      arg with the SAME (start, end).  (`if X_.shape[0] == 0: continue` cannot trigger: start < n.) *)
@@ -103,14 +108,15 @@ Fixpoint rows (X : list row) (args : list arg) : list (row * list row) :=
 
 Inductive okind := KTensor | KTuple | KList.
 
-(* one output head of an example-wise model: flags -> x_i -> [a_0[i]; a_1[i]; ...] -> y_i *)
-Definition head := bool -> bool -> row -> list row -> row.
+(* one output head of an example-wise model:
+   training flags of all sub-modules -> grad mode -> x_i -> [a_0[i]; a_1[i]; ...] -> y_i *)
+Definition head := list bool -> bool -> row -> list row -> row.
 Definition dhead : head := fun _ _ _ _ => [].
 
-Definition apply_head (h : head) (tr gr : bool) (rs : list (row * list row)) : list row :=
+Definition apply_head (h : head) (tr : list bool) (gr : bool) (rs : list (row * list row)) : list row :=
   map (fun p => h tr gr (fst p) (snd p)) rs.
 
-Definition g_ex (k : okind) (hs : list head) : bool -> bool -> list row -> list arg -> yval :=
+Definition g_ex (k : okind) (hs : list head) : list bool -> bool -> list row -> list arg -> yval :=
   fun tr gr Xw Aw =>
     let rs := rows Xw Aw in
     match k with
@@ -119,11 +125,12 @@ Definition g_ex (k : okind) (hs : list head) : bool -> bool -> list row -> list 
     end.
 
 (* the exact-integer head of the harness's recording module: output j (1-based multiplier m)
-   of example i is m * (x_i ++ a_0[i] ++ a_1[i] ++ ...) -- in evaluation mode.  In training
-   mode dropout / batch-norm are active and the output is not this encoding (modelled as the
-   unusable empty row; the theorems show training mode is never entered).                *)
+   of example i is m * (x_i ++ a_0[i] ++ a_1[i] ++ ...) -- when EVERY sub-module is in evaluation
+   mode.  If any of them is in training mode dropout / batch-norm are active and the output is
+   not this encoding (modelled as the unusable empty row; the theorems show that no module is
+   in training mode during a forward call).                                               *)
 Definition enc_head (m : Z) : head :=
-  fun tr _ x ar => if tr then [] else map (Z.mul m) (x ++ concat ar).
+  fun tr _ x ar => if existsb (fun t => t) tr then [] else map (Z.mul m) (x ++ concat ar).
 
 Definition enc_heads (k : nat) : list head :=
   map (fun j => enc_head (Z.of_nat j + 1)) (seq 0 k).
